@@ -60,22 +60,22 @@ var avoidKnown = map[string]bool{
 	// Same root cause: when the last segment start falls strictly inside the final sample of another
 	// track, that track's interval becomes {N+1, N-1} and the slice capacity end-start+1 wraps to
 	// 4294967295 (out of memory); accepted only when the model shows that situation.
-	"segmenter-last-sample-dropped": true,
+	"segmenter-last-sample-dropped": false, // repaired in /repo (fix: e324434)
 	// examples/resegmenter Resegment: the loop that looks for the next segment start also tests the very
 	// first sample; when its presentation time is >= the chunk duration (any stream that does not start
 	// near time 0) segment 1 is closed before anything was written to it: the output starts with an
 	// empty styp/moof/mdat. Oracle side: an empty FIRST segment is accepted.
-	"resegmenter-empty-first-segment": true,
+	"resegmenter-empty-first-segment": false, // repaired in /repo (fix: 4868175)
 	// MediaSegment.Fragmentify uses "accumulated duration == 0" as the sign that a new output fragment
 	// has to be started: a zero-duration sample that opens a fragment leaves the accumulator at 0, so the
 	// next sample opens another fragment although the target duration was not reached (no sample is
 	// lost). Oracle side: the "closed before reaching the target" check skips fragments that consist of
 	// one zero-duration sample.
-	"fragmentify-zero-duration-sample-closes-fragment": true,
+	"fragmentify-zero-duration-sample-closes-fragment": false, // repaired in /repo (fix: f894956)
 	// examples/segmenter getSegmentStartsFromVideo dereferences the video track's stss without a nil
 	// check: a video track without stss (= every sample is a sync sample) is a nil pointer panic.
 	// Generator side: the video track gets an stss.
-	"segmenter-video-without-stss": true,
+	"segmenter-video-without-stss": false, // repaired in /repo (fix: 212c8b8)
 }
 
 func avoiding(noAvoid bool, name string) bool { return !noAvoid && avoidKnown[name] }
